@@ -12,6 +12,7 @@ import (
 	"bytes"
 	"fmt"
 	"strings"
+	"time"
 
 	"github.com/thushan/olla/internal/verif/h/lib/report"
 	"github.com/thushan/olla/internal/verif/h/lib/stack"
@@ -58,12 +59,20 @@ func faults(thorough bool) []fault {
 		{"headers-then-close@mid", func(l byte, s bool) stack.Behaviour { b := respond(l, s); b.Cut = 20; b.After = "close"; return b }},
 		{"bytes-then-rst", func(l byte, s bool) stack.Behaviour { b := respond(l, s); b.Cut = 20; b.After = "rst"; return b }},
 		{"garbage", func(l byte, s bool) stack.Behaviour { return stack.Behaviour{Kind: "garbage"} }},
+		// headers delivered, then the connection is reset before the first body byte (80 ms so that olla has
+		// read and forwarded the header block; if the reset wins the race the cell degenerates into a
+		// reset-before-headers, which may legitimately be retried)
+		{"headers-then-rst@0", func(l byte, s bool) stack.Behaviour {
+			b := respond(l, s)
+			b.Cut, b.After, b.DelayBeforeAfter = 0, "rst", 80*time.Millisecond
+			return b
+		}},
 	}
 	if thorough {
 		fs = append(fs,
 			fault{"headers-then-close@1", func(l byte, s bool) stack.Behaviour { b := respond(l, s); b.Cut = 1; b.After = "close"; return b }},
 			fault{"rst-before-headers", func(l byte, s bool) stack.Behaviour { return stack.Behaviour{Kind: "read-rst"} }},
-			fault{"rst@0", func(l byte, s bool) stack.Behaviour { b := respond(l, s); b.Cut = 0; b.After = "rst"; return b }},
+			fault{"rst@0-immediately", func(l byte, s bool) stack.Behaviour { b := respond(l, s); b.Cut = 0; b.After = "rst"; return b }},
 			fault{"half-headers-close", func(l byte, s bool) stack.Behaviour { b := respond(l, s); b.Cut = -2; b.After = "close"; return b }},
 		)
 	}
